@@ -1,6 +1,6 @@
 (* Proofs/C02Grid.v -- default grids of generate_X_grid / _flatten_mesh (real instance of Model/Predict.v):
-   linspace end points and spacing, the single-term grid, the n^k 'ij' mesh in C order, and the by-column that
-   _flatten_mesh leaves at zero (tensor terms; any term under meshgrid=True).                                      *)
+   linspace end points and spacing, the single-term grid, the n^k 'ij' mesh in C order, the by-column set to one for
+   every term kind (meshgrid off or on), hence the default partial dependence is the term's effect at by = 1.        *)
 From Coq Require Import List ZArith Reals Lra Lia Bool Arith.
 From PG Require Import Base.Ops Base.Vec Model.BSpline Model.Columns Model.Predict Proofs.VecR Proofs.C16 Proofs.C02.
 Import ListNotations.
@@ -59,11 +59,10 @@ Proof.
   intros Hf Hby E. cbn [default_grid] in E. inversion E as [Eg]. clear E. split.
   - rewrite map_length. unfold axis. apply linspace_length.
   - intros i Hi.
-    set (F := fun x => let row := set_nth (simple_feature s) x (zeros (fr Rfops) m) in
-                       match simple_by s with Some j => set_nth j (r1 (fr Rfops)) row | None => row end).
+    set (F := fun x => set_by Rfops (simple_by s) (set_nth (simple_feature s) x (zeros (fr Rfops) m))).
     assert (EN : nth i (map F (axisR lin n s)) [] = F (nth i (axisR lin n s) 0)).
     { rewrite (nth_indep _ [] (F 0)) by (rewrite map_length; unfold axis; rewrite linspace_length; exact Hi). apply map_nth. }
-    cbv zeta. change (map _ (axisR lin n s)) with (map F (axisR lin n s)). rewrite EN. unfold F. cbv zeta. change (fr Rfops) with Rrops. change (r1 Rrops) with 1.
+    cbv zeta. change (map _ (axisR lin n s)) with (map F (axisR lin n s)). rewrite EN. unfold F, set_by. change (fr Rfops) with Rrops. change (r1 Rrops) with 1.
     destruct (simple_by s) as [j|] eqn:Eb.
     + destruct (Hby j eq_refl) as [Hj Hne]. repeat split.
       * rewrite !set_nth_length. apply zeros_length.
@@ -145,26 +144,60 @@ Proof.
   - cbn [nth] in *. apply IH; [exact ND'|cbn in HL; lia|cbn in Hi; lia|]. unfold assign. rewrite set_nth_length. exact Hr.
 Qed.
 
+(* ---------- the by-column ---------- *)
+Notation set_byR := (set_by Rfops).
+Lemma set_by_length by_ (row : list R) : length (set_byR by_ row) = length row.
+Proof. destruct by_; cbn; [apply set_nth_length|reflexivity]. Qed.
+Lemma nth_set_by_eq j (row : list R) : (j < length row)%nat -> nth j (set_byR (Some j) row) 0 = 1.
+Proof. intros H. cbn. apply nth_set_nth_eq. exact H. Qed.
+Lemma nth_set_by_neq by_ c (row : list R) : by_ <> Some c -> nth c (set_byR by_ row) 0 = nth c row 0.
+Proof. destruct by_ as [j|]; intros H; [|reflexivity]. cbn. apply nth_set_nth_neq. congruence. Qed.
+
 (* ---------- the grid of a tensor term (and of any term under meshgrid=True) ---------- *)
 Lemma mesh_grid_rows lin m n t : Forall (fun row => exists pt, In pt (mesh (map (axisR lin n) (term_marginals t))) /\
-  row = flatten_rowR m (map simple_feature (term_marginals t)) pt) (mesh_gridR lin m n t).
+  row = set_byR (term_by t) (flatten_rowR m (map simple_feature (term_marginals t)) pt)) (mesh_gridR lin m n t).
 Proof. apply Forall_forall. intros row H. unfold mesh_grid in H. apply in_map_iff in H. destruct H as [pt [E H]]. exists pt. split; [exact H|symmetry; exact E]. Qed.
-(* every column that is not the feature of a marginal -- in particular the by-column -- is zero in every grid row *)
-Theorem mesh_grid_other_columns_zero lin m n t c : ~ In c (map simple_feature (term_marginals t)) ->
+(* every column that is neither the feature of a marginal nor the by-column is zero in every grid row *)
+Theorem mesh_grid_other_columns_zero lin m n t c : ~ In c (map simple_feature (term_marginals t)) -> term_by t <> Some c ->
   Forall (fun row => nth c row 0 = 0) (mesh_gridR lin m n t).
 Proof.
-  intros H. eapply Forall_impl; [|apply mesh_grid_rows]. intros row [pt [_ E]]. subst row. rewrite flatten_row_unfold.
-  rewrite fold_assign_notin by exact H. apply nth_zeros.
+  intros H Hb. eapply Forall_impl; [|apply mesh_grid_rows]. intros row [pt [_ E]]. subst row. rewrite nth_set_by_neq by exact Hb.
+  rewrite flatten_row_unfold. rewrite fold_assign_notin by exact H. apply nth_zeros.
 Qed.
+(* the by-column is one in every row of the mesh grid: every term kind *)
+Theorem mesh_grid_by_one lin m n t j : term_by t = Some j -> (j < m)%nat -> Forall (fun row => nth j row 0 = 1) (mesh_gridR lin m n t).
+Proof.
+  intros Hb Hj. eapply Forall_impl; [|apply mesh_grid_rows]. intros row [pt [_ E]]. subst row. rewrite Hb. apply nth_set_by_eq.
+  rewrite flatten_row_unfold, fold_assign_length. rewrite zeros_length. exact Hj.
+Qed.
+(* ... and of the default grid (meshgrid=False) *)
+Theorem default_grid_by_one lin m n t j g : term_by t = Some j -> (j < m)%nat -> default_gridR lin m n t = Some g ->
+  Forall (fun row => nth j row 0 = 1) g.
+Proof.
+  intros Hb Hj E. destruct t as [|s|ms by_]; cbn [default_grid] in E; [discriminate| |].
+  - inversion E. apply Forall_forall. intros row Hr. apply in_map_iff in Hr. destruct Hr as [x [Ex _]]. subst row. cbn [term_by] in Hb.
+    rewrite Hb. apply nth_set_by_eq. rewrite set_nth_length. change (fr Rfops) with Rrops. rewrite zeros_length. exact Hj.
+  - inversion E. apply mesh_grid_by_one; assumption.
+Qed.
+(* for a non-tensor term the flattened mesh of meshgrid=True is the default grid of meshgrid=False *)
+Lemma mesh_single (a : list R) : mesh [a] = map (fun x => [x]) a.
+Proof. change (mesh [a]) with (flat_map (fun x : R => map (cons x) [[]]) a). induction a as [|x a IH]; [reflexivity|]. cbn. cbn in IH. rewrite IH. reflexivity. Qed.
+Theorem simple_meshgrid_is_default_grid lin m n s : default_gridR lin m n (CSimple s) = Some (mesh_gridR lin m n (CSimple s)).
+Proof.
+  cbn [default_grid]. f_equal. unfold mesh_grid. cbn [term_marginals term_by map]. rewrite mesh_single, map_map. apply map_ext. intros x. reflexivity.
+Qed.
+
 Theorem grid_tensor lin m n ms by_ g : default_gridR lin m n (CTensor ms by_) = Some g ->
   NoDup (map simple_feature ms) -> Forall (fun s => (simple_feature s < m)%nat) ms ->
+  (forall j, by_ = Some j -> (j < m)%nat /\ ~ In j (map simple_feature ms)) ->
   length g = (n ^ length ms)%nat /\
   forall js, length js = length ms -> Forall (fun j => (j < n)%nat) js -> let row := nth (ravel n js) g [] in
     length row = m /\
     (forall i, (i < length ms)%nat -> nth (simple_feature (nth i ms (SLinear O))) row 0 = nth (nth i js O) (axisR lin n (nth i ms (SLinear O))) 0) /\
-    (forall c, ~ In c (map simple_feature ms) -> nth c row 0 = 0).
+    (forall j, by_ = Some j -> nth j row 0 = 1) /\
+    (forall c, ~ In c (map simple_feature ms) -> by_ <> Some c -> nth c row 0 = 0).
 Proof.
-  intros E ND Hm. cbn [default_grid] in E. inversion E as [Eg]. clear E. unfold mesh_grid. cbn [term_marginals].
+  intros E ND Hm Hby. cbn [default_grid] in E. inversion E as [Eg]. clear E. unfold mesh_grid. cbn [term_marginals term_by].
   assert (HA : Forall (fun a => length a = n) (map (axisR lin n) ms)).
   { apply Forall_forall. intros a Ha. apply in_map_iff in Ha. destruct Ha as [s [Es _]]. subst a. unfold axis. apply linspace_length. }
   split.
@@ -172,12 +205,16 @@ Proof.
   - intros js Hl Hj. cbv zeta.
     assert (Hlt : (ravel n js < length (mesh (map (axisR lin n) ms)))%nat).
     { rewrite (mesh_length n _ HA), map_length, <- Hl. apply ravel_lt. exact Hj. }
-    rewrite (nth_indep _ [] (flatten_rowR m (map simple_feature ms) [])) by (rewrite map_length; exact Hlt).
-    rewrite (map_nth (flatten_rowR m (map simple_feature ms))).
+    set (F := fun pt => set_byR by_ (flatten_rowR m (map simple_feature ms) pt)).
+    rewrite (nth_indep _ [] (F [])) by (rewrite map_length; exact Hlt).
+    rewrite (map_nth F). unfold F.
     rewrite (mesh_point n) by (try exact HA; try exact Hj; rewrite map_length; exact Hl).
     rewrite flatten_row_unfold. repeat split.
-    + rewrite fold_assign_length. apply zeros_length.
+    + rewrite set_by_length, fold_assign_length. apply zeros_length.
     + intros i Hi.
+      assert (Hnb : by_ <> Some (simple_feature (nth i ms (SLinear O)))).
+      { intros Eb. destruct (Hby _ Eb) as [_ Hn]. apply Hn. apply in_map. apply nth_In. exact Hi. }
+      rewrite nth_set_by_neq by exact Hnb.
       replace (simple_feature (nth i ms (SLinear O))) with (nth i (map simple_feature ms) O)
         by (exact (map_nth simple_feature ms (SLinear O) i)).
       rewrite fold_assign_in.
@@ -190,49 +227,45 @@ Proof.
       * rewrite map_length. exact Hi.
       * rewrite zeros_length. change (nth i (map simple_feature ms) O) with (nth i (map simple_feature ms) (simple_feature (@SLinear R O))).
         rewrite map_nth. rewrite Forall_forall in Hm. apply Hm. apply nth_In. exact Hi.
-    + intros c Hc. rewrite fold_assign_notin by exact Hc. apply nth_zeros.
+    + intros j Ej. subst by_. apply nth_set_by_eq. rewrite fold_assign_length, zeros_length. apply (Hby j eq_refl).
+    + intros c Hc Hb. rewrite nth_set_by_neq by exact Hb. rewrite fold_assign_notin by exact Hc. apply nth_zeros.
 Qed.
 
-(* ---------- a zero by-column makes the partial effect vanish ---------- *)
-Lemma dot_vscale0 (b c : list R) : dotR (vscaleR 0 b) c = 0.
-Proof. rewrite dot_vscale_l. lra. Qed.
-Theorem pdep_zero_by_tensor ts beta i ms j row p : nth i ts CIntercept = CTensor ms (Some j) -> nth j row 0 = 0 ->
-  pdepR ts beta i row = Some p -> p = 0.
+(* ---------- at by = 1 a term's columns are those of the same term without its by-variable ---------- *)
+Lemma vscale_one (b : list R) : vscaleR 1 b = b.
+Proof. unfold vscale. induction b as [|a b IH]; [reflexivity|]. cbn [map]. rewrite IH. f_equal. cbn. lra. Qed.
+Theorem block_at_by_one t j row : term_by t = Some j -> nth j row 0 = 1 -> blockR t row = blockR (drop_by t) row.
 Proof.
-  intros Et Hz. unfold pdep. rewrite Et, by_scales_tensor, Hz. destruct (blockR (CTensor ms None) row) as [b|]; [|discriminate].
-  cbn [option_map]. intros E. inversion E. apply dot_vscale0.
+  intros Hb H1. destruct t as [|s|ms by_]; cbn [term_by] in Hb; [discriminate| |].
+  - destruct s as [f|f e0 e1 n k p by_|f e0 e1 n d]; cbn [simple_by] in Hb; try discriminate. subst by_.
+    cbn [drop_by block]. rewrite by_scales_spline, H1. destruct (block_simpleR (SSpline f e0 e1 n k p None) row); [|reflexivity].
+    cbn [option_map]. rewrite vscale_one. reflexivity.
+  - subst by_. cbn [drop_by]. rewrite by_scales_tensor, H1. destruct (blockR (CTensor ms None) row); [|reflexivity].
+    cbn [option_map]. rewrite vscale_one. reflexivity.
 Qed.
-Theorem pdep_zero_by_spline ts beta i f e0 e1 n k per j row p : nth i ts CIntercept = CSimple (SSpline f e0 e1 n k per (Some j)) ->
-  nth j row 0 = 0 -> pdepR ts beta i row = Some p -> p = 0.
+Lemma drop_by_none (t : cterm R) : term_by t = None -> drop_by t = t.
+Proof. destruct t as [|[f|f e0 e1 n k p by_|f e0 e1 n d]|ms by_]; cbn; intros H; try reflexivity; subst; reflexivity. Qed.
+(* partial_dependence(i) without X -- meshgrid False or True -- is, at every grid row, the effect of the term with its
+   by-variable removed (i.e. evaluated at by = 1): every term kind *)
+Definition effect_without_by ts beta i (row : list R) : option R :=
+  option_map (fun b => dotR b (term_coefs ts beta i)) (blockR (drop_by (nth i ts CIntercept)) row).
+Lemma pdep_on_by_one_rows ts beta i m (rows : list (list R)) :
+  (forall j, term_by (nth i ts CIntercept) = Some j -> (j < m)%nat /\ Forall (fun row => nth j row 0 = 1) rows) ->
+  map (pdepR ts beta i) rows = map (effect_without_by ts beta i) rows.
 Proof.
-  intros Et Hz. unfold pdep. rewrite Et. cbn [block]. rewrite by_scales_spline, Hz.
-  destruct (block_simpleR (SSpline f e0 e1 n k per None) row) as [b|]; [|discriminate].
-  cbn [option_map]. intros E. inversion E. apply dot_vscale0.
+  intros H. apply map_ext_in. intros row Hr. unfold pdep, effect_without_by.
+  destruct (term_by (nth i ts CIntercept)) as [j|] eqn:Eb.
+  - destruct (H j eq_refl) as [_ F]. rewrite Forall_forall in F. rewrite (block_at_by_one _ j row Eb (F row Hr)). reflexivity.
+  - rewrite drop_by_none by exact Eb. reflexivity.
 Qed.
-(* partial_dependence(i) of a tensor term with a by-variable on its default grid (meshgrid false or true) is identically 0 *)
-Theorem tensor_by_default_pdep_zero lin m n ts beta i ms j : nth i ts CIntercept = CTensor ms (Some j) ->
-  ~ In j (map simple_feature ms) ->
-  (forall g, pdep_default Rfops lin m n ts beta i = Some g -> Forall (fun v => forall p, v = Some p -> p = 0) g) /\
-  Forall (fun v => forall p, v = Some p -> p = 0) (pdep_meshgrid Rfops lin m n ts beta i).
+Theorem default_pdep_is_effect_at_by_one lin m n ts beta i :
+  (forall j, term_by (nth i ts CIntercept) = Some j -> (j < m)%nat) ->
+  pdep_default Rfops lin m n ts beta i = option_map (map (effect_without_by ts beta i)) (default_gridR lin m n (nth i ts CIntercept)) /\
+  pdep_meshgrid Rfops lin m n ts beta i = map (effect_without_by ts beta i) (mesh_gridR lin m n (nth i ts CIntercept)).
 Proof.
-  intros Et Hj.
-  assert (Z : Forall (fun v => forall p, v = Some p -> p = 0) (map (pdepR ts beta i) (mesh_gridR lin m n (CTensor ms (Some j))))).
-  { apply Forall_forall. intros v Hv. apply in_map_iff in Hv. destruct Hv as [row [Ev Hr]]. subst v. intros p Hp.
-    pose proof (mesh_grid_other_columns_zero lin m n (CTensor ms (Some j)) j Hj) as F. rewrite Forall_forall in F.
-    apply (pdep_zero_by_tensor ts beta i ms j row p Et (F row Hr) Hp). }
-  split.
-  - intros g. unfold pdep_default. rewrite Et. cbn [default_grid option_map]. intros E. inversion E. exact Z.
-  - unfold pdep_meshgrid. rewrite Et. exact Z.
-Qed.
-(* partial_dependence(i, meshgrid=True) of a spline term with a by-variable is identically 0 as well *)
-Theorem spline_by_meshgrid_pdep_zero lin m n ts beta i f e0 e1 ns k per j :
-  nth i ts CIntercept = CSimple (SSpline f e0 e1 ns k per (Some j)) -> j <> f ->
-  Forall (fun v => forall p, v = Some p -> p = 0) (pdep_meshgrid Rfops lin m n ts beta i).
-Proof.
-  intros Et Hj. unfold pdep_meshgrid. rewrite Et. apply Forall_forall. intros v Hv. apply in_map_iff in Hv.
-  destruct Hv as [row [Ev Hr]]. subst v. intros p Hp.
-  assert (Hn : ~ In j (map simple_feature (term_marginals (CSimple (SSpline f e0 e1 ns k per (Some j)))))).
-  { cbn. intros [E|[]]. congruence. }
-  pose proof (mesh_grid_other_columns_zero lin m n _ j Hn) as F. rewrite Forall_forall in F.
-  apply (pdep_zero_by_spline ts beta i f e0 e1 ns k per j row p Et (F row Hr) Hp).
+  intros Hj. split.
+  - unfold pdep_default. destruct (default_gridR lin m n (nth i ts CIntercept)) as [g|] eqn:E; [|reflexivity]. cbn [option_map]. f_equal.
+    apply (pdep_on_by_one_rows ts beta i m). intros j Eb. split; [apply Hj; exact Eb|]. apply (default_grid_by_one lin m n _ j g Eb (Hj j Eb) E).
+  - unfold pdep_meshgrid. apply (pdep_on_by_one_rows ts beta i m). intros j Eb. split; [apply Hj; exact Eb|].
+    apply mesh_grid_by_one; [exact Eb|apply Hj; exact Eb].
 Qed.
